@@ -106,6 +106,17 @@ Definition out_sx (o : out) : sx :=
   | OPanic c => SList [SList [SInt c]]
   end.
 
+(* The untyped nil is a legal value; it travels as this reserved integer (harness nilCode).
+   Put, Entry.SetValue return "the previous value or nil": for exactly these operations the API
+   cannot tell "none" from "the value nil", so both are written (). *)
+Definition nil_code : Z := -999999999.
+Definition enc (o : op) (x : out) : sx :=
+  match o, x with
+  | (Put _ _ | SetValueAt _ _ _ | IterSetValue _ _), OVal (Some v) =>
+      if v =? nil_code then SList [] else out_sx x
+  | _, _ => out_sx x
+  end.
+
 Fixpoint pairs (l : list Z) : option (list kv) :=
   match l with
   | [] => Some []
@@ -222,8 +233,8 @@ Definition check_op (o : op) (x : sx) (ms : mstate) (mo : out) (ss : sstate) (so
       vjoin (check_that p (VPropFail (cat o)))
             (check_that (sx_eqb x (out_sx mo)) (VMismatch (cat o)))
   | _ =>
-      vjoin (check_that (sx_eqb x (out_sx so)) (VPropFail (cat o)))
-            (check_that (sx_eqb x (out_sx mo)) (VMismatch (cat o)))
+      vjoin (check_that (sx_eqb x (enc o so)) (VPropFail (cat o)))
+            (check_that (sx_eqb x (enc o mo)) (VMismatch (cat o)))
   end.
 
 Fixpoint replay (ops : list sx) (obs : list sx) (ms : mstate) (ss : sstate) (acc : verdict) : verdict :=
